@@ -1,5 +1,5 @@
 #!/usr/bin/env python3
-"""C13 -- damaged input: errors stay in the library's family and work stays bounded (DESIGN.md 3.C13)."""
+"""C13 -- damaged input: errors stay in the library's family and work stays bounded (DESIGN.md section 4, C13)."""
 import copy
 import io
 import os
@@ -48,7 +48,7 @@ MANIFEST_ENTRY = {
             "Observed fault by fault: no hang, no RecursionError, work within budget; exception leaks are listed site by "
             "site in known_findings.json and any new site is reported.",
     "note": "Trusted: Coq kernel, hand model tied by differential runs, the fault enumerator and classifier.",
-    "design_ref": "DESIGN.md 3.C13",
+    "design_ref": "DESIGN.md section 4, C13",
 }
 
 
